@@ -288,13 +288,16 @@ NumLight == {Light(31, <<Cyc("RED", 2)>>, 0, XYp(t, t), "ALL", 1) : t \in AnyTok
 
 (* ------------------------------ cases ------------------------------------------------------------------------------ *)
 Case(comp, d, desc) == [comp |-> comp, d |-> d, desc |-> desc, reuse |-> <<>>]
-Ru(edit, w2) == <<[edit |-> edit, w2 |-> w2]>>
+Ru(edit, w2) == <<[route |-> "writer", edit |-> edit, w2 |-> w2, first |-> "open"]>>
+RuR(edit, first) == <<[route |-> "reader", edit |-> edit, w2 |-> "full", first |-> first]>>
 (* (a case that triggers the known finding on virtual signs keeps its plain signature: no writer reuse there) *)
 CaseR(comp, d, desc, ru) == [comp |-> comp, d |-> d, desc |-> desc,
                              reuse |-> IF ReuseOK(desc, ru) /\ (\A i \in DOMAIN desc.signs : desc.signs[i].virt = 0) THEN ru ELSE <<>>]
 (* one case in three of the mixed draws reuses its writer: a random edit, second write full or scenario-only *)
-RandomReuse(i) == LET k == RandomElement(1..30) IN      \* (the parameter keeps TLC from caching one draw)
-               IF k > 10 THEN <<>> ELSE Ru(EditTokens[((k - 1) % Len(EditTokens)) + 1], IF k <= 5 THEN "full" ELSE "scenario")
+RandomReuse(i) == LET k == RandomElement(1..40) IN      \* (the parameter keeps TLC from caching one draw)
+               IF k > 20 THEN <<>>
+               ELSE IF k > 10 THEN RuR(EditTokens[((k - 1) % Len(EditTokens)) + 1], IF k <= 15 THEN "open" ELSE "open_lanelet_network")
+               ELSE Ru(EditTokens[((k - 1) % 5) + 1], IF k <= 5 THEN "full" ELSE "scenario")
 WithL1Refs(sr, lr) == [DefLanelet(1) EXCEPT !.signs = sr, !.lights = lr]
 SignsOf(la) == SortIds(Range(la.signs) \cup UNION {Range(s.sref) : s \in Range(la.stop)})
 LightsOf(la) == SortIds(Range(la.lights) \cup UNION {Range(s.lref) : s \in Range(la.stop)})
@@ -338,6 +341,7 @@ MixedDesc(i) ==
 
 RichWorld(o) == World(DefHdr, LanDef("SOLID", "DASHED", Adj(2, 1), <<>>, <<Stop("SOLID", <<21>>, <<31>>, 0, 0)>>, <<"URBAN">>, <<"CAR">>, <<>>, <<21>>, <<31>>),
                       <<DefSign(21)>>, <<DefLight(31)>>, <<Inter(41, <<Inc(45, <<1>>, <<2>>, <<>>, <<>>, 0)>>, <<3>>, 0)>>, <<o>>, <<DefPP(91)>>)
+ReuseIdTokens == {"natural", "lights_first", "reversed"}
 RichObstacles == {Sta("PARKED_VEHICLE", DefRect, InitFull, <<>>, <<>>, 1), Dyn("CAR", DefRect, InitFull, <<>>, <<>>, 1, DefTraj),
                   Pha(SetOf(<<Occ(TE(1), DefRect)>>)), EnvO("BUILDING", DefRect)}
 BothRefs(la) == \E s \in Range(la.stop) : s.sref # <<>> /\ s.lref # <<>>
@@ -360,7 +364,9 @@ CasesOf(comp) ==
                                           i \in 1..NMixed}   \* see ShardCases
     \* writer reuse on a world that has every component: every edit x second write x obstacle role x id-order token
     [] comp = "reuse"        -> {CaseR("reuse", 4, Renumber(RichWorld(o), tk), Ru(ed, w2)) :
-                                   o \in RichObstacles, tk \in Range(IdTokens), ed \in Range(EditTokens), w2 \in {"full", "scenario"}}
+                                   o \in RichObstacles, tk \in ReuseIdTokens, ed \in Range(EditTokens), w2 \in {"full", "scenario"}}
+                                \cup {CaseR("reuse", 4, Renumber(RichWorld(o), tk), RuR(ed, f)) :
+                                        o \in RichObstacles, tk \in ReuseIdTokens, ed \in Range(EditTokens), f \in {"open", "open_lanelet_network"}}
     \* small witnesses for the deviation configurations (DEV_Codec_*.cfg)
     [] comp = "dev_horn"     -> {Case("obstacle", 4, EmbedObst(Dyn("CAR", DefRect, InitFull, <<SigOf(TE(0), S, 1)>>, <<>>, 1, DefTraj))) :
                                    S \in {{"horn"}, {"horn", "braking_lights"}, {"braking_lights"}}}
